@@ -57,6 +57,8 @@ def images(profiles, quick_n, thorough_n, nested="0", points="all", big=0):
 def simple(quick_n, thorough_n, nested="0"):
     def gen(rng, tier):
         n = {"quick": quick_n, "search": thorough_n}.get(tier, thorough_n)
+        # (CG.gen_longlog_case is not used: more than ~300 inserted rows make the catalog rows outgrow what the B+tree
+        #  handles - recorded finding C10-large-cells - so logs beyond one data block are exercised at WAL level by C17)
         return [CG.gen_simple_case(rng, "all", nested) for _ in range(n)]
     return gen
 
